@@ -9,6 +9,9 @@ package runtime
 // A thread always belongs to a runtime (set by NewThread / the main thread's
 // construction and never reassigned): assumed for every Thread read from the heap.
 //@ typeinv Thread: self.Runtime != nil
+//@ typeinv Runtime: self.registry != nil
+//@ typeinv Closure: self.Code != nil && len(self.Upvalues) == int(self.Code.UpvalueCount) && len(self.Code.UpNames) == int(self.Code.UpvalueCount) && forall(j, 0, len(self.Upvalues), self.Upvalues[j].ref != nil)
+//@ stable Code.UpvalueCount written-by (*Runtime).RefactorCodeConsts, LoadLuaUnit
 
 //@ macro isInt(v) = typeis(v.iface, int64)
 //@ macro isFloat(v) = typeis(v.iface, float64)
@@ -1461,3 +1464,12 @@ package runtime
 //@   arith int
 //@   requires t != nil
 //@   modifies nothing
+
+//@ func (*Termination).Get
+//@   trusted
+//@   requires c != nil && n >= 0
+//@   modifies nothing
+
+// A closure keeps its code, and code objects are immutable once built.
+//@ stable Closure.Code written-by NewClosure
+//@ stable Closure.Upvalues written-by NewClosure
